@@ -19,7 +19,7 @@ func VerifNewServer(cfg *Config, id connection.ConnectionId) *Server {
 }
 
 func VerifServerHandle(s *Server, msg protocol.Message) error { return s.messageHandler(msg) }
-func VerifServerAck(s *Server) int                             { return s.ackCount }
+func VerifServerAck(s *Server) int                             { return int(s.ackCount) }
 
 func VerifNewClient(cfg *Config, id connection.ConnectionId) *Client {
 	c := &Client{config: cfg, Protocol: protocol.VerifRecordingProtocol(StateMap, stateIdle)}
